@@ -17,7 +17,7 @@ LEVEL_TEXT = ("static analysis: (D1) expect_flat_log2 and shift_sex_chroms, comp
               "one representative bin per chromosome class (autosome, X, PAR-X, Y) for sample sex {female, male, unknown} x reference sex x "
               "PAR genome x naming with symbolic per-bin noise: a sample at its sex's expected levels comes out at X = -1 (male reference) / 0 "
               "(female reference), Y = -1 (exactly -1 for a female sample), autosomes and PAR-X unchanged; (D2) the flat reference is 0 on "
-              "autosomes, -1 on Y, -1 on X iff the reference is male, PAR-X 0 with a PAR genome, stored to log2 with depth = 2^log2; (D3) in "
+              "autosomes, -1 on Y, -1 on X iff the reference is male, PAR-X 0 with a PAR genome, PAR-Y -1 for a female reference, stored by do_reference_flat to log2 with depth = 2^log2 on target and antitarget bins alike; (D3) in "
               "load_sample_block every sample after the first reaches the matrix only through an array_equal test of (chromosome, start, end, "
               "gene) that raises; (D4) row 0 of the matrix is the flat pseudo-sample, every other row bias_correct_logr(sample) = centre, "
               "shift sex chromosomes, then corrections; files are processed in sorted(key=fbase) order; (D5) log2 <- biweight_location over "
